@@ -219,8 +219,7 @@ Section Sound.
 
     Definition all_hash (g : group) (hh : file -> hash) : Prop := forall f, In f (gfiles g) -> ghash g = hh f.
     Definition I1 (g : group) : Prop := gbase g /\ (one_id (gfiles g) \/ all_hash g Hpre).
-    Definition over_thr (g : group) : Prop :=
-      forall f, In f (gfiles g) -> suffix_threshold (dkind c (fdev f)) <= flen f.
+    Definition over_thr (g : group) : Prop := forall f, In f (gfiles g) -> S < flen f.
     Definition xor_keyed (g : group) : Prop := all_hash g (fun f => hxor (Hpre f) (Hsfx f)) /\ over_thr g.
     Definition I2 (g : group) : Prop :=
       gbase g /\ (one_id (gfiles g) \/ all_hash g Hpre \/ xor_keyed g).
@@ -312,15 +311,14 @@ Section Sound.
     Proof. intros Hgs Hin. apply (prefix_stage_raw gs g Hgs). apply rehash_in_raw in Hin. exact Hin. Qed.
 
     Lemma suffix_stage_raw thr gs g : (forall g0, In g0 gs -> I1 g0) ->
-      (forall g0 f, In g0 (map sort_group_by_id gs) -> In f (gfiles g0) -> suffix_threshold (dkind c (fdev f)) <= thr) ->
-      In g (rehash_raw n StSuffix (pre_suffix thr) (hf_suffix o n S) (map sort_group_by_id gs)) -> I2 g.
+      In g (rehash_raw n StSuffix (pre_suffix thr S) (hf_suffix o n S) (map sort_group_by_id gs)) -> I2 g.
     Proof.
-      intros Hgs Hthr Hin.
+      intros Hgs Hin.
       assert (Hgs' : forall g0, In g0 (map sort_group_by_id gs) -> I1 g0).
       { intros g0 Hg0. apply in_map_iff in Hg0. destruct Hg0 as (g0' & <- & ?). apply I1_sort; auto. }
       apply (rehash_raw_sound _ _ _ _ _ _ Hnd) in Hin. destruct Hin as [[Hin Hpre']|Hreg].
       - destruct (Hgs' g Hin) as [Hb Hk]. split; auto. tauto.
-      - apply (regrouped_files (hf_suffix o n S) (fun f old => hxor old (Hsfx f)) (pre_suffix thr) (map sort_group_by_id gs) g) in Hreg.
+      - apply (regrouped_files (hf_suffix o n S) (fun f old => hxor old (Hsfx f)) (pre_suffix thr S) (map sort_group_by_id gs) g) in Hreg.
         + destruct Hreg as [Hb Hall]. split; auto. right. right. split; intros f Hf.
           * destruct (Hall f Hf) as (g1 & rep & Hg1 & Hp1 & Hrep & Hrs & Hi & Hd & -> & _).
             destruct (Hb f Hf) as [Hfs _]. destruct (same_inode rep f Hrs Hfs Hi Hd) as (E1 & E2 & _).
@@ -329,17 +327,16 @@ Section Sound.
                apply unique_count_le1 in Ho. unfold pre_multi in Hp1. congruence.
             -- rewrite (Hh rep Hrep). congruence.
           * destruct (Hall f Hf) as (_ & _ & _ & _ & _ & _ & _ & _ & _ & g0 & Hg0 & Hp0 & Hf0).
-            unfold pre_suffix in Hp0. apply andb_true_iff in Hp0. destruct Hp0 as [Hp0 _]. apply N.leb_le in Hp0.
-            destruct (Hgs' g0 Hg0) as [Hb0 _]. destruct (Hb0 f Hf0) as [_ El0].
-            specialize (Hthr g0 f Hg0 Hf0). lia.
+            unfold pre_suffix in Hp0. apply andb_true_iff in Hp0. destruct Hp0 as [Hp0 _].
+            apply andb_true_iff in Hp0. destruct Hp0 as [_ Hp0]. apply N.ltb_lt in Hp0.
+            destruct (Hgs' g0 Hg0) as [Hb0 _]. destruct (Hb0 f Hf0) as [_ El0]. lia.
         + apply hf_suffix_spec.
         + intros g0 Hg0. apply Hgs'; auto.
     Qed.
 
     Lemma suffix_stage thr gs g : (forall g0, In g0 gs -> I1 g0) ->
-      (forall g0 f, In g0 (map sort_group_by_id gs) -> In f (gfiles g0) -> suffix_threshold (dkind c (fdev f)) <= thr) ->
-      In g (rehash n StSuffix (pre_suffix thr) (matches c) (hf_suffix o n S) (map sort_group_by_id gs)) -> I2 g.
-    Proof. intros Hgs Hthr Hin. apply (suffix_stage_raw thr gs g Hgs Hthr). apply rehash_in_raw in Hin. exact Hin. Qed.
+      In g (rehash n StSuffix (pre_suffix thr S) (matches c) (hf_suffix o n S) (map sort_group_by_id gs)) -> I2 g.
+    Proof. intros Hgs Hin. apply (suffix_stage_raw thr gs g Hgs). apply rehash_in_raw in Hin. exact Hin. Qed.
 
     Lemma contents_stage_raw gs g : (forall g0, In g0 gs -> I2 g0) ->
       In g (rehash_raw n StContents (pre_contents P) (hf_contents o n) (map sort_group_by_id gs)) -> I3 g.
@@ -367,7 +364,7 @@ Section Sound.
 
   (* the hash keys that can decide a final group: the hash of the whole file, or, for files shorter
      than the prefix length that pass the suffix threshold, the whole-file hash XOR the hash of the
-     last s bytes, s the configured / device suffix length (s < len: see K11 for s >= len) *)
+     last s bytes, s the configured / device suffix length (s < len: the suffix stage skips shorter files) *)
   Definition sfx (s : N) (d : list N) : list N :=
     let l := N.of_nat (length d) in chunk d (l - N.min s l) (N.min s l).
   Definition suffix_cands : list N :=
@@ -383,13 +380,6 @@ Section Sound.
       fdata f = fdata f'.
   Hypothesis Hcf : collision_free.
 
-  (* K11: --max-suffix-size covers a whole file that passes the suffix threshold while --max-prefix-size
-     exceeds its length: prefix and suffix stage hash the same bytes, the XOR is 0 for every such file,
-     and the contents stage skips them. *)
-  Definition K11 : Prop :=
-    exists p s f, max_prefix c = Some p /\ max_suffix c = Some s /\ In f scanned /\
-                  suffix_threshold (dkind c (fdev f)) <= flen f /\ flen f < p /\ flen f <= s.
-
   Lemma Hfull_whole f : In f scanned -> Hfull f = H (fdata f).
   Proof. intros Hf. unfold Hfull. rewrite chunk_all; auto. rewrite (Hlen f Hf). lia. Qed.
   Lemma Hpre_whole P f : In f scanned -> flen f < P -> Hpre P f = H (fdata f).
@@ -400,24 +390,6 @@ Section Sound.
   Lemma Hsfx_sfx S f : In f scanned -> Hsfx S f = H (sfx S (fdata f)).
   Proof. intros Hf. unfold Hsfx, sfx, slen. rewrite <- (Hlen f Hf). auto. Qed.
 
-  Lemma max_dev_prop_bounds (prop : disk_kind -> N) lo hi fs :
-    (forall k, lo <= prop k <= hi) -> lo <= max_dev_prop c prop fs <= hi \/ (fs <> [] /\ max_dev_prop c prop fs <= hi).
-  Proof. intros Hb. unfold max_dev_prop. destruct fs; [left; apply Hb|]. right. split; [discriminate|].
-    generalize (f :: fs). intros l. induction l as [|x l IH]; cbn [map fold_right]; [specialize (Hb SSD); lia|].
-    specialize (Hb (dkind c (fdev x))). lia.
-  Qed.
-  Lemma max_dev_prop_le (prop : disk_kind -> N) hi fs : (forall k, prop k <= hi) -> max_dev_prop c prop fs <= hi.
-  Proof.
-    intros Hb. unfold max_dev_prop. destruct fs; [apply Hb|].
-    generalize (f :: fs). intros l. induction l as [|x l IH]; cbn [map fold_right]; [specialize (Hb SSD); lia|].
-    specialize (Hb (dkind c (fdev x))). lia.
-  Qed.
-  Lemma max_dev_prop_ge (prop : disk_kind -> N) fs f : In f fs -> prop (dkind c (fdev f)) <= max_dev_prop c prop fs.
-  Proof.
-    intros Hf. unfold max_dev_prop. destruct fs as [|y fs]; [destruct Hf|].
-    revert Hf. generalize (y :: fs). intros l. induction l as [|x l IH]; cbn [map fold_right]; intros Hf; [destruct Hf|].
-    destruct Hf as [->|Hf]; [lia|]. specialize (IH Hf). lia.
-  Qed.
   Lemma max_dev_prop_in (prop : disk_kind -> N) fs :
     In (max_dev_prop c prop fs) [prop SSD; prop HDD; prop UnknownKind].
   Proof.
@@ -435,14 +407,11 @@ Section Sound.
     apply Hgen. discriminate.
   Qed.
 
-  Lemma I3_sound P S g :
-    (max_prefix c = None -> P <= 16384) -> (forall p, max_prefix c = Some p -> P = p) ->
-    (max_suffix c = None -> S <= 16384) -> (forall s, max_suffix c = Some s -> S = s) ->
-    In S suffix_cands -> ~ K11 ->
+  Lemma I3_sound P S g : In S suffix_cands ->
     I3 P S g -> forall f f', In f (gfiles g) -> In f' (gfiles g) ->
     fdata f = fdata f' /\ glen g = N.of_nat (length (fdata f)).
   Proof.
-    intros HP0 HP1 HS0 HS1 HSc HK [Hb Hk] f f' Hf Hf'. destruct (Hb f Hf) as [Hs Hl]. destruct (Hb f' Hf') as [Hs' Hl'].
+    intros HSc [Hb Hk] f f' Hf Hf'. destruct (Hb f Hf) as [Hs Hl]. destruct (Hb f' Hf') as [Hs' Hl'].
     split; [|rewrite <- Hl; apply Hlen; auto].
     destruct Hk as [Ho|[Hh|[Hlt [Hh|[Hh Hthr]]]]].
     - apply (Hids f f'); auto.
@@ -450,16 +419,9 @@ Section Sound.
     - apply Hcf; auto; [congruence|]. left. rewrite <- (Hpre_whole P f), <- (Hpre_whole P f'); auto; try lia.
       rewrite <- (Hh f), <- (Hh f'); auto.
     - specialize (Hthr f Hf).
-      assert (Ht : 65536 <= suffix_threshold (dkind c (fdev f))) by (destruct (dkind c (fdev f)); cbn; lia).
-      destruct (N.ltb_spec S (flen f)) as [HSlt|HSge].
-      + apply Hcf; auto; [congruence|]. right. exists S. split; auto. split; auto.
-        rewrite <- (Hpre_whole P f), <- (Hpre_whole P f'), <- !Hsfx_sfx; auto; try lia.
-        rewrite <- (Hh f), <- (Hh f'); auto.
-      + exfalso. apply HK.
-        destruct (max_prefix c) as [p|] eqn:Ep; [|specialize (HP0 eq_refl); lia].
-        destruct (max_suffix c) as [s|] eqn:Es; [|specialize (HS0 eq_refl); lia].
-        pose proof (HP1 p eq_refl) as EP. pose proof (HS1 s eq_refl) as ES.
-        unfold K11. rewrite Ep, Es. exists p, s, f. repeat split; auto; lia.
+      apply Hcf; auto; [congruence|]. right. exists S. split; auto. split; auto.
+      rewrite <- (Hpre_whole P f), <- (Hpre_whole P f'), <- !Hsfx_sfx; auto; try lia.
+      rewrite <- (Hh f), <- (Hh f'); auto.
   Qed.
 
   Lemma early_gbase g : In g (remove_same_files c (group_by_size c (filter (size_ok c) scanned))) -> gbase g.
@@ -468,34 +430,17 @@ Section Sound.
     destruct (group_by_size_in _ _ _ Hg0 f (Hsub f Hf)) as [Hfs Hfl]. apply filter_In in Hfs. split; [tauto|congruence].
   Qed.
 
-  Lemma prefix_len_of_facts gs : (max_prefix c = None -> prefix_len_of c gs <= 16384) /\
-                                 (forall p, max_prefix c = Some p -> prefix_len_of c gs = p).
+  Lemma suffix_len_of_cands gs : In (suffix_len_of c gs) suffix_cands.
   Proof.
-    unfold prefix_len_of. destruct (max_prefix c) as [p0|]; split.
-    - intros E; discriminate.
-    - intros p E; inversion E; auto.
-    - intros _. apply max_dev_prop_le. intros []; cbn; lia.
-    - intros p E; discriminate.
-  Qed.
-  Lemma suffix_len_of_facts gs : (max_suffix c = None -> suffix_len_of c gs <= 16384) /\
-                                 (forall s, max_suffix c = Some s -> suffix_len_of c gs = s) /\
-                                 In (suffix_len_of c gs) suffix_cands.
-  Proof.
-    unfold suffix_len_of, suffix_cands. destruct (max_suffix c) as [s0|]; split; [| split | | split].
-    - intros E; discriminate.
-    - intros s E; inversion E; auto.
-    - left; auto.
-    - intros _. apply max_dev_prop_le. intros []; cbn; lia.
-    - intros s E; discriminate.
-    - apply max_dev_prop_in.
+    unfold suffix_len_of, suffix_cands. destruct (max_suffix c) as [s0|]; [left; auto|apply max_dev_prop_in].
   Qed.
 
-  Theorem c01_sound : ~ K11 -> skip_content c = false -> transform c = false ->
+  Theorem c01_sound : skip_content c = false -> transform c = false ->
     forall g, In g (group_files H T c n scanned) ->
     forall f f', In f (gfiles g) -> In f' (gfiles g) ->
       fdata f = fdata f' /\ glen g = N.of_nat (length (fdata f)).
   Proof.
-    intros HK Hskip Htr g Hg f f' Hf Hf'. unfold group_files, group_files_gen in Hg.
+    intros Hskip Htr g Hg f f' Hf Hf'. unfold group_files, group_files_gen in Hg.
     apply finalize_in in Hg. destruct Hg as (g0 & Hg0 & El & _ & Hp).
     unfold pipeline in Hg0. rewrite Htr, Hskip in Hg0.
     set (g1 := remove_same_files c (group_by_size c (filter (size_ok c) scanned))) in *.
@@ -507,15 +452,11 @@ Section Sound.
     assert (H1 : forall g', In g' g2 -> I1 P g').
     { intros g' Hg'. apply (prefix_stage P S g1 g'); auto. intros g1' Hg1'. apply early_gbase; auto. }
     assert (H3 : I3 P S g0).
-    { apply (contents_stage P S (rehash n StSuffix (pre_suffix thr) (matches c) (hf_suffix (oracle_of H T) n S)
+    { apply (contents_stage P S (rehash n StSuffix (pre_suffix thr S) (matches c) (hf_suffix (oracle_of H T) n S)
                                         (map sort_group_by_id g2)) g0); [|exact Hg0].
-      intros g3 Hg3. apply (suffix_stage P S thr g2 g3); auto.
-      intros ga fa Hga Hfa. unfold thr, suffix_threshold_of. apply max_dev_prop_ge.
-      unfold all_files. apply in_flat_map. eauto. }
+      intros g3 Hg3. apply (suffix_stage P S thr g2 g3); auto. }
     rewrite El.
-    destruct (prefix_len_of_facts g1) as [HP0 HP1].
-    destruct (suffix_len_of_facts (map sort_group_by_id g2)) as (HS0 & HS1 & HSc).
-    apply (I3_sound P S g0 HP0 HP1 HS0 HS1 HSc HK H3); eapply Permutation_in; eauto.
+    apply (I3_sound P S g0 (suffix_len_of_cands _) H3); eapply Permutation_in; eauto.
   Qed.
 
   (* ---------------------------------------------------------------- C01 under --transform *)
